@@ -122,6 +122,18 @@ class RecTracer(Tracer):
         ERROR_ATTEMPTS.append(attempt_of(error))
 
 
+class TracerFailure(Exception):
+    pass
+
+
+class RaisingTracer(Tracer):
+    """configured LAST: its completion hook raises (an exporter whose sink is down).  The tracers before it have all been
+    told by then; whatever the library does with the failure, none of them may be told a second time."""
+
+    def on_request_end(self, trace_context, request, response):
+        raise TracerFailure('the tracer itself failed')
+
+
 ERROR_ATTEMPTS = []       # for every on_error event, in order: which attempt's exception object it was given (None: not a scripted one)
 
 
@@ -339,7 +351,7 @@ def run_send(c, is_async):
     supplied = SimpleNamespace() if cl['caller_ctx'] else None
     tracers = [RecTracer(i, trace, ctxs, supplied) for i in range(int(cl['tracers']))]
     kw = client_kwargs(cl)
-    kw['tracers'] = ([LoggingTracer()] if cl.get('logging_tracer') else []) + tracers
+    kw['tracers'] = ([LoggingTracer()] if cl.get('logging_tracer') else []) + tracers + ([RaisingTracer()] if cl.get('raising_tracer') else [])
     kw['retry_strategy'] = make_strategy(cl.get('retry'))
     sess = c.get('session')
     if sess is not None and (sess, is_async) in _SESSIONS:
